@@ -3,6 +3,7 @@ import WtfModel.Proofs.C01Legacy
 import WtfModel.Proofs.C01Idf
 import WtfModel.Proofs.ScoreField
 import WtfModel.Gen.SearchParams
+import WtfModel.Proofs.Boosts
 
 /-!
   C01 — search returns a bounded, ranked, duplicate-free list of real entries.
@@ -279,5 +280,90 @@ example : cliLimit Gen.SearchParams.configMaxResults 0 = some 5 ∧ cliLimit Gen
     cliLimit Gen.SearchParams.configMaxResults (-1) = none := by decide
 
 end examples
+
+end Wtf.C01
+
+/-! ### The NLP layer is modelled: no hypothesis about the NLP factors is left
+
+  `Boosts.nlpOut ri db nq` (Model/Boosts.lean over Model/Nlp.lean) is the model of what `SearchUniversal` obtains from
+  package nlp and from `calculateIntentBoost` / `calculateBoostForCommand` for the normalised query `nq` on database `db`,
+  with every table, literal and factor regenerated from the source on every run (`Gen/Boosts.lean`, `Gen/NlpTables.lean`,
+  `Gen/Hints.lean`) and validated bit for bit against the real functions (correspondence domain `boosts`; the `search`
+  driver runs with this NLP layer and compares it with the real values of every case).  For it the `nlp` field of
+  `TuningWF` is a theorem (`Boosts.nlpOut_factorsNonneg`: intent boost > 0, cascading boost ≥ 1, proved from a decidable
+  check of the regenerated factors), so the C01 clauses hold with the remaining four hypotheses only. -/
+namespace Wtf.C01
+open Wtf.Search Wtf.Legacy ScoreOps ScoreLaws
+
+variable {S : Type} [ScoreOps S] [ScoreLaws S]
+
+/-- `TuningWF` without its `nlp` field: BM25F parameters sane (proved for the source: `source_params_sane`), idf ≥ 0
+    (`idf_formula_nonneg`), TF-IDF similarities ≥ 0, the fuzzy library's sort is a sorted permutation -/
+structure TuningWFRest (T : Tuning S) : Prop where
+  params : ParamsWF T.params
+  idf : IdfNonneg T
+  tfidf : TfidfNonneg T
+  fuzzySort : FuzzySortOK T
+
+/-- the regenerated boost rules are well formed: every multiplicative literal of the intent-boost functions is > 0, the
+    cascading boost starts at a value ≥ 1 and adds literals ≥ 0 (re-evaluated by `decide` on every regeneration) -/
+theorem boost_rules_wf : Boosts.genSpec.WF = true := Boosts.genSpec_wf
+
+/-- for every database, query text, document and rune table: the modelled `calculateIntentBoost` is positive and the
+    modelled `calculateBoostForCommand` is at least 1 -/
+theorem modelled_factors (ri : RuneInfo) (db : Db) (nq : Bytes) (d : Nat) :
+    Pos ((Boosts.nlpOut (S := S) ri db nq).intentBoost d) ∧ ge ((Boosts.nlpOut (S := S) ri db nq).cascade d) one :=
+  ⟨Boosts.nlpOut_intentBoost_pos ri db nq d, Boosts.nlpOut_cascade_ge_one ri db nq d⟩
+
+/-- a parameter set whose NLP layer is the modelled one for the searched database is well formed as soon as its other
+    fields are -/
+theorem tuningWF_of_modelled_nlp (T : Tuning S) (db : Db) (hnlp : T.nlp = Boosts.nlpOut T.ri db) (hR : TuningWFRest T) :
+    TuningWF T where
+  params := hR.params
+  idf := hR.idf
+  nlp := by intro q; rw [hnlp]; exact Boosts.nlpOut_factorsNonneg T.ri db q
+  tfidf := hR.tfidf
+  fuzzySort := hR.fuzzySort
+
+/-- **C01, SearchUniversal, with the modelled NLP layer**: the five clauses, no hypothesis about NLP factors -/
+theorem universal_modelled_nlp (T : Tuning S) (db : Db) (hnlp : T.nlp = Boosts.nlpOut T.ri db) (hR : TuningWFRest T)
+    (q : Bytes) (o : Opts S) (r : List (Nat × S)) (h : search T db q o = .ok r) :
+    r.length ≤ effLimit o ∧ (∀ x ∈ r, x.1 < db.length) ∧ (r.map (·.1)).Nodup ∧
+    r.Pairwise (fun a b => lt a.2 b.2 = false) ∧ (∀ x ∈ r, Nonneg x.2) :=
+  universal T (tuningWF_of_modelled_nlp T db hnlp hR) db q o r h
+
+/-- **C01, `wtf [search]`, with the modelled NLP layer** -/
+theorem cli_modelled_nlp (T : Tuning S) (db : Db) (hnlp : T.nlp = Boosts.nlpOut T.ri db) (hR : TuningWFRest T)
+    (q : Bytes) (o : Opts S) (hl : 0 < o.limit) (r : List (Nat × S)) (h : cliResults T db q o = .ok r) :
+    r.length ≤ effLimit o ∧ (∀ x ∈ r, x.1 < db.length) ∧ (r.map (·.1)).Nodup ∧
+    r.Pairwise (fun a b => lt a.2 b.2 = false) ∧ (∀ x ∈ r, Nonneg x.2) :=
+  cli T (tuningWF_of_modelled_nlp T db hnlp hR) db q o hl r h
+
+/-! non-vacuity: the modelled NLP layer on the example database (S := ℚ) -/
+section examples_modelled
+
+local instance : ScoreOps ℚ := fieldScoreOps ℚ
+local instance : ScoreLaws ℚ := fieldScoreLaws ℚ
+
+/-- the example parameter set with the modelled NLP layer for `db0` -/
+private def T1 : Tuning ℚ := { T0 with nlp := Boosts.nlpOut T0.ri db0 }
+
+private theorem T1_rest : TuningWFRest T1 := ⟨T0_wf.params, T0_wf.idf, T0_wf.tfidf, T0_wf.fuzzySort⟩
+
+-- the factors are not trivial: for "list files" (intent find; actions list/show/display; targets files/documents)
+-- `ls -la — list files` gets 2·1.3·1.2 = 78/25 and 1+3+2+1.5 = 15/2; `tar czf x` gets 1 and 1
+example : [0, 1, 2].map (Boosts.nlpOut (S := ℚ) {} db0 (bs "list files")).intentBoost = [78/25, 1, 2] := by decide +kernel
+example : [0, 1, 2].map (Boosts.nlpOut (S := ℚ) {} db0 (bs "list files")).cascade = [15/2, 1, 10] := by decide +kernel
+-- "compress directory": the compression special case (1.5·2.5·… on `tar`) and the command hint `tar` (+6)
+example : [0, 1, 2].map (Boosts.nlpOut (S := ℚ) {} db0 (bs "compress directory")).intentBoost = [1, 117/8, 1] := by decide +kernel
+example : [0, 1, 2].map (Boosts.nlpOut (S := ℚ) {} db0 (bs "compress directory")).cascade = [1, 27/2, 1] := by decide +kernel
+-- a search through the modelled layer (one document scores, so the kernel can evaluate the stable sort), and the
+-- theorem applied to it
+example : (search T1 db0 (bs "compress directory") { o0 with useNLP := true, limit := 1 }).toOption.map (·.map (·.1)) = some [1] := by
+  decide +kernel
+example : ∀ r, search T1 db0 (bs "compress directory") { o0 with useNLP := true, limit := 1 } = .ok r → r.length ≤ 1 ∧ ∀ x ∈ r, Nonneg x.2 :=
+  fun r h => let p := universal_modelled_nlp T1 db0 rfl T1_rest (bs "compress directory") _ r h; ⟨p.1, p.2.2.2.2⟩
+
+end examples_modelled
 
 end Wtf.C01
